@@ -222,7 +222,9 @@ class norm_full(Conv):
         elif t.is_disj():
             return pt.on_rhs(binop_conv(self), norm_disj_disjunction())
         elif t.is_equals():
-            lhs, rhs = t.lhs, t.rhs
+            # normalise both sides first, then simplify with respect to their final form
+            pt = pt.on_rhs(binop_conv(self))
+            lhs, rhs = pt.rhs.lhs, pt.rhs.rhs
             if lhs == rhs:
                 return pt.on_rhs(rewr_conv('eq_mean_true'))
             elif lhs == true: # (true ⟷ P) ⟷ P
@@ -230,15 +232,15 @@ class norm_full(Conv):
             elif rhs == true: # (P ⟷ true) ⟷ P
                 return pt.on_rhs(rewr_conv('eq_true', sym=True))
             elif lhs == false: # (false ⟷ P) ⟷ ¬P
-                return pt.on_rhs(rewr_conv('eq_sym_eq'), rewr_conv('eq_false', sym=True))
-            elif rhs == true: # (P ⟷ false) ⟷ ¬P
-                return pt.on_rhs(rewr_conv('eq_false', sym=True))
+                return pt.on_rhs(rewr_conv('eq_sym_eq'), rewr_conv('eq_false', sym=True), self)
+            elif rhs == false: # (P ⟷ false) ⟷ ¬P
+                return pt.on_rhs(rewr_conv('eq_false', sym=True), self)
             else:
-                return pt.on_rhs(binop_conv(self))
+                return pt
         elif t.is_not() and (t.arg.is_conj() or t.arg.is_disj() or t.arg.is_not() or t.arg == true or t.arg == false):
             return pt.on_rhs(nnf_conv(), self)
-        elif t.is_not() and t.arg.is_equals():
-            return pt.on_rhs(nnf_conv())
+        elif t.is_not() and t.arg.is_equals() and t.arg.lhs.get_type() == BoolType:
+            return pt.on_rhs(nnf_conv(), self)
         else:
             return pt
 
